@@ -71,7 +71,9 @@ def obligations():
             # quick tier: one cheap shape per circulator (measured < 60 s each); the rest is thorough only
             QUICK = {'vhf_iter': 'open', 'hfe_iter': None, 'hfv_iter': None, 'fv_iter': None, 'che_iter': None, 'cv_iter': None, 'ce_iter': None, 'vv_iter': 'open'}
             qf = ['C05'] if sh == QUICK.get(name, shapes[0]) else []
-            obs.append(Ob(id='C05.circ.' + n, props=['C05', 'C20', 'C01'], quick_for=qf, tu='kernel', tier='B', roots=ROOTS_BUILD, harness=mh,
+            mirror = name in ('hfhe_iter', 'hfe_iter', 'hfv_iter')      # ordered halfface circulators: the odd side must run the even side's cycle backwards (C08)
+            if mirror and sh == 'quadpillow': qf = qf + ['C08']
+            obs.append(Ob(id='C05.circ.' + n, props=['C05', 'C20', 'C01'] + (['C08'] if mirror else []), quick_for=qf, tu='kernel', tier='B', roots=ROOTS_BUILD, harness=mh,
                           includes=['wf.h', 'view.h', 'add_spec.h', 'query_spec.h', 'circ_spec.h', 'shapes.h'], copies=[TK], defines=dict(DEFS), unwind=(44 if name in ('ce_iter', 'che_iter') else 26), unwind_start=8, covers=1, timeout=1500,
                           inits={'tk_init': TK}, prebuild_shape=SHAPES[sh], bounds=dict(shape=sh, centre='all handles of the shape (symbolic)', laps='1..2'),
                           note='circulator %s on the constructive shape "%s": centre symbolic over the whole handle range, 1 or 2 laps; incident set = brute-force scan' % (name, sh)))
